@@ -37,8 +37,8 @@ impl RaftIndexInnerManager {
             .await?;
         let meta = file.metadata().await?;
         //log::info!("index file len:{}",meta.len());
-        // 8 header bytes + the single length byte of an empty index: nothing has been saved yet
-        let (last_applied_log, raft_index) = if meta.len() <= 9 {
+        // less than 8 header bytes + the length byte of an index: nothing has been saved yet
+        let (last_applied_log, raft_index) = if meta.len() < 9 {
             //init write
             let index = RaftIndex::default();
             /*
@@ -65,11 +65,19 @@ impl RaftIndexInnerManager {
             let mut header_buf = vec![0u8; 8];
             file.read_exact(&mut header_buf).await?;
             let last_applied_log = bin_to_id(&header_buf);
-            let mut file_reader = FileMessageReader::new(file.try_clone().await?, 8);
-            let buf = file_reader.read_next().await?;
-            let mut reader = BytesReader::from_bytes(&buf);
-            let index: RaftIndex = reader.read_message(&buf)?;
-            let raft_index: RaftIndexDto = index.into();
+            let mut len_buf = [0u8; 1];
+            file.read_exact(&mut len_buf).await?;
+            // an index with only default values is a single zero length byte, not an unreadable file
+            let raft_index: RaftIndexDto = if len_buf[0] == 0 {
+                RaftIndex::default().into()
+            } else {
+                file.seek(std::io::SeekFrom::Start(8)).await?;
+                let mut file_reader = FileMessageReader::new(file.try_clone().await?, 8);
+                let buf = file_reader.read_next().await?;
+                let mut reader = BytesReader::from_bytes(&buf);
+                let index: RaftIndex = reader.read_message(&buf)?;
+                index.into()
+            };
             (last_applied_log, raft_index)
         };
         Ok(Self {
